@@ -21,6 +21,10 @@ CLAIMED = {
             "runtime monitor: reference machine executing each API step on fresh unaliased copies (decoded from encoding snapshots), all variables compared after every step; explicit aliasing matrix + random programs, 20 groups",
             "The live (possibly aliased) objects and the reference snapshots are compared after every step of every program: receiver, return value and every other variable. Clone/Set independence is exercised by mutating either side in place with every mutator.",
             "encode/decode round trip (C03) to make independent copies; only executed aliasing patterns are judged (all 5 classes for binary ops are enumerated)."),
+    "C04": ("exploration",
+            "runtime monitor: hostile byte strings into every point/scalar decoder (20 groups) and every composite parser entry point, child process per batch with a pre-execution journal; accepted points re-checked by independent math/big membership models and cross-decoded by sibling back-ends; thorough tier repeats the decoder batch under -race (checkptr)",
+            "Judges 'error or usable value, never panic': every accepted value is used (String, Equal, Clone, Add, Mul, Neg, Sub, Data, re-encode/re-decode), and accepted points must satisfy the independent curve equation / subgroup test. Parsers (Schnorr, EdDSA, BLS, TBLS, BDN, CoSi, proofs, shuffles, ECIES, anon, VSS deals incl. deals sealed through the real encryption path) are fed mutated valid messages.",
+            "math/big curve models (Ed25519, P-256, BN G1, BN twist, BLS12-381 G1); q*P=O through the group's own arithmetic for BLS12-381 G2 and BN254 G2; recover() catches panics, the driver attributes process-fatal errors to the journaled input."),
 }
 
 PENDING = {}
